@@ -69,27 +69,40 @@ Proof.
   intros [] [] [] [] [] []; reflexivity.
 Qed.
 
-Lemma node_char_level e : suff_node_level dec_impl e = negb (k1 e || k2 e || k3 e).
+Lemma node_char_level e : suff_node_level dec_impl e = negb (k1 e || k3 e).
 Proof.
   destruct e as [l n|a f|a x|a|u a|o a b|c a b|s p b|x b]; try reflexivity.
   - destruct a as [| | | | |oa ? ?| | |]; try reflexivity; destruct oa; reflexivity.
   - destruct a as [| | | | |oa ? ?| | |]; try reflexivity; destruct oa; reflexivity.
   - destruct u; destruct a as [| | | | |oa ? ?| | |]; try reflexivity; destruct oa; reflexivity.
-  - destruct a as [[]| | | | |oa ? ?| | |]; destruct b as [[]| | | | |ob ? ?| | |];
-      try destruct oa; try destruct ob; destruct o; reflexivity.
+  - destruct (bop_eqb_spec o Lt) as [->|Hne].
+    + unfold suff_node_level. cbn [forallb sides dec_impl is_lt andb]. generalize (may_end a). intros m.
+      destruct a as [[]| | | | |oa ? ?| | |]; destruct b as [[]| | | | |ob ? ?| | |];
+        try destruct oa; try destruct ob; destruct m; reflexivity.
+    + assert (Hlt : is_lt o = false) by (destruct o; try reflexivity; congruence).
+      unfold suff_node_level. cbn [forallb sides dec_impl]. rewrite Hlt. cbn [andb].
+      destruct a as [[]| | | | |oa ? ?| | |]; destruct b as [[]| | | | |ob ? ?| | |];
+        try destruct oa; try destruct ob; destruct o; try congruence; reflexivity.
 Qed.
 
-Lemma node_char_lt e : lt_ok dec_impl e = negb (k6 e).
+Lemma ends_field_may_end dec : forall e, ends_field dec e = true -> may_end e = true.
+Proof.
+  induction e; cbn [ends_field may_end]; intros H; try discriminate; try reflexivity;
+    apply andb_prop in H; destruct H as [_ H]; auto.
+Qed.
+
+(* since 98c0b1b the guard covers every left operand of `<` whose printed form ends with a field name *)
+Lemma node_char_lt e : lt_ok dec_impl e = true.
 Proof.
   destruct e as [l n|a f|a x|a|u a|o a b|c a b|s p b|x b]; try reflexivity.
-  unfold lt_ok, k6. destruct o; try reflexivity. cbn [is_lt andb].
-  destruct (ends_field dec_impl a), (dec_impl (Bin Lt a b) SLeft); reflexivity.
+  unfold lt_ok. destruct o; try reflexivity. cbn [is_lt andb].
+  destruct (ends_field dec_impl a) eqn:E; [|reflexivity].
+  cbn [implb dec_impl is_lt andb]. rewrite (ends_field_may_end _ _ E). reflexivity.
 Qed.
 
 Lemma node_char e : suff_node dec_impl e = negb (known_node e).
 Proof.
-  rewrite suff_node_split, node_char_level, node_char_lt. unfold known_node.
-  destruct (k1 e || k2 e || k3 e), (k6 e); reflexivity.
+  rewrite suff_node_split, node_char_level, node_char_lt. unfold known_node. rewrite andb_true_r. reflexivity.
 Qed.
 
 Lemma all_any P e : all_nodes (fun x => negb (P x)) e = negb (any_node P e).
@@ -125,26 +138,11 @@ Lemma K1_witness_cmp : k1 (Bin Eq xa (Bin Lt xb xc)) = true /\
   parse_expr 60 (impl (Bin Eq xa (Bin Lt xb xc))) = Some (Bin Lt (Bin Eq xa xb) xc).
 Proof. split; vm_compute; reflexivity. Qed.
 
-Lemma go_none_mono : forall f m ts, go f m ts = None -> forall f', f' <= f -> go f' m ts = None.
-Proof.
-  intros f m ts H f' Hle. destruct (go f' m ts) as [r|] eqn:E; [|reflexivity].
-  rewrite (go_mono _ _ _ _ E f Hle) in H. discriminate.
-Qed.
-
-Lemma K2_witness : known_C08 (Un Not (Un Not xa)) = true /\ k2 (Un Not (Un Not xa)) = true /\
-  forall fuel, parse_expr fuel (impl (Un Not (Un Not xa))) = None.
-Proof.
-  split; [vm_compute; reflexivity|]. split; [vm_compute; reflexivity|].
-  intros fuel. unfold parse_expr.
-  destruct (go fuel (MLevel 0) (impl (Un Not (Un Not xa)))) as [[e r]|] eqn:E; [|reflexivity].
-  exfalso. pose proof (go_mono _ _ _ _ E (fuel + 30) ltac:(lia)) as E'.
-  assert (Hn : go 30 (MLevel 0) (impl (Un Not (Un Not xa))) = None) by (vm_compute; reflexivity).
-  (* more fuel never turns an answer into another one: at 30 + fuel it would still be Some *)
-  destruct (go (30 + fuel) (MLevel 0) (impl (Un Not (Un Not xa)))) eqn:E2.
-  - clear E E' Hn. revert E2. generalize (30 + fuel). intros n.
-    do 12 (destruct n as [|n]; [discriminate|]). vm_compute. discriminate.
-  - rewrite Nat.add_comm in E'. congruence.
-Qed.
+(* repaired by 98d650f: !(!x) keeps its parentheses and is read back *)
+Lemma K2_repaired : known_C08 (Un Not (Un Not xa)) = false /\
+  impl (Un Not (Un Not xa)) = [TBang; LP; TBang; TId 0; RP] /\
+  parse_expr 60 (impl (Un Not (Un Not xa))) = Some (Un Not (Un Not xa)).
+Proof. repeat split; vm_compute; reflexivity. Qed.
 
 Lemma K3_witness : known_C08 (Bin Concat (Bin Plus xa xb) xc) = true /\ k3 (Bin Concat (Bin Plus xa xb) xc) = true /\
   parse_expr 60 (impl (Bin Concat (Bin Plus xa xb) xc)) = Some (Bin Plus xa (Bin Concat xb xc)).
@@ -154,16 +152,12 @@ Lemma K3_witness_right : k3 (Bin Concat xa (Bin Mul xb xc)) = true /\
   parse_expr 60 (impl (Bin Concat xa (Bin Mul xb xc))) = Some (Bin Mul (Bin Concat xa xb) xc).
 Proof. split; vm_compute; reflexivity. Qed.
 
-Lemma K6_witness : known_C08 (Bin Lt (Field xa 1) xb) = true /\ k6 (Bin Lt (Field xa 1) xb) = true /\
-  forall fuel, parse_expr fuel (impl (Bin Lt (Field xa 1) xb)) = None.
-Proof.
-  split; [vm_compute; reflexivity|]. split; [vm_compute; reflexivity|].
-  intros fuel. unfold parse_expr.
-  destruct (go fuel (MLevel 0) (impl (Bin Lt (Field xa 1) xb))) as [[e r]|] eqn:E; [|reflexivity].
-  exfalso. pose proof (go_mono _ _ _ _ E (fuel + 30) ltac:(lia)) as E'. clear E.
-  revert E'. generalize (fuel + 30). intros n.
-  do 16 (destruct n as [|n]; [discriminate|]). vm_compute. discriminate.
-Qed.
+(* repaired by 98c0b1b: (a.b) < c keeps its parentheses; the unguarded output a.b < c is still rejected by the parser model *)
+Lemma K6_repaired : known_C08 (Bin Lt (Field xa 1) xb) = false /\
+  impl (Bin Lt (Field xa 1) xb) = [LP; TId 0; TDot; TFld 1; RP; TOp Lt; TId 1] /\
+  parse_expr 60 (impl (Bin Lt (Field xa 1) xb)) = Some (Bin Lt (Field xa 1) xb) /\
+  parse_expr 60 [TId 0; TDot; TFld 1; TOp Lt; TId 1] = None.
+Proof. repeat split; vm_compute; reflexivity. Qed.
 
 (* ---- the answer of the parser does not depend on the fuel *)
 Lemma parse_expr_mono f f' ts e : parse_expr f ts = Some e -> f <= f' -> parse_expr f' ts = Some e.
